@@ -1216,6 +1216,10 @@ func (fx *FnExec) BytesOf(st *State, s Term) Term {
 	fx.declBytes()
 	key := fx.tc.ElemKey(types.Typ[types.Uint8])
 	arr := Select(fx.Heap(st, key), App("sl.base", SInt, s))
+	if strings.Contains(s.S, "q$") {
+		// mentions a bound variable: must stay inside its quantifier (no top-level definition)
+		return App("bseq", "BSeq", arr, App("sl.off", SInt, s), App("sl.len", SInt, s))
+	}
 	b := fx.sc.Define("bseq", App("bseq", "BSeq", arr, App("sl.off", SInt, s), App("sl.len", SInt, s)))
 	fx.sc.Assume(Eq(App("bseq.len", SInt, b), App("sl.len", SInt, s)))
 	return b
